@@ -2,5 +2,7 @@
 (* Design check of Prover.tla (C10): small constants, every interleaving.   *)
 EXTENDS Prover
 MCConfigs == {[np |-> p, n |-> k, spawnOk |-> s] : p \in 1..3, k \in 1..3, s \in BOOLEAN}
+MCConfigsBig == {[np |-> p, n |-> k, spawnOk |-> s] : p \in {4, 5}, k \in {2, 3, 5}, s \in BOOLEAN}
+MCOutcomesBig == {"Theorem", "Missing"}
 MCOutcomes == {"Theorem", "CounterSatisfiable", "Missing", "BadUtf8"}
 =============================================================================
